@@ -119,3 +119,29 @@ def tensor_cases(ctx, report, with_grad=True):
             seen.add(c["_key"])
             out.append(c)
     return out
+
+
+NN_FAMILIES = ["conv1d", "conv2d", "pool1d", "pool2d", "unfold", "fold", "linear", "act", "softmax", "loss", "bn"]
+
+
+def axis_set(Ls, ks, ss, ps, ds):
+    return tlc.Raw("{" + ", ".join("<<%d,%d,%d,%d,%d>>" % (L, k, s, p, d) for L in Ls for k in ks for s in ss for p in ps for d in ds) + "}")
+
+
+def nn_consts(quick):
+    if quick:
+        return dict(MaxBasis=6, AxisSet=axis_set((1, 2, 3, 4, 5), (1, 2, 3), (1, 2, 3), (0, 1, 2), (1, 2)),
+                    Axis2Set=tlc.Raw("{<<3,2,1,0,1>>, <<4,2,2,1,1>>, <<3,3,1,1,2>>, <<2,1,3,0,1>>, <<4,3,2,2,1>>, <<2,3,1,0,1>>, <<1,3,1,0,1>>}"),
+                    NCSet=tlc.Raw("{<<1,1,1>>, <<2,2,2>>, <<1,2,1>>}"))
+    return dict(MaxBasis=12, AxisSet=axis_set((1, 2, 3, 4, 5, 6), (1, 2, 3), (1, 2, 3), (0, 1, 2), (1, 2)),
+                Axis2Set=axis_set((2, 3, 4), (1, 2, 3), (1, 2), (0, 1), (1, 2)) ,
+                NCSet=tlc.Raw("{<<1,1,1>>, <<2,2,2>>, <<1,2,1>>, <<2,1,2>>}"))
+
+
+def nn_cases(ctx, report, with_grad=True, families=None):
+    fams = families or NN_FAMILIES
+    cases = generate(report, "NNCatalog", fams, nn_consts(ctx.quick), with_grad, timeout=20000)
+    return cases
+
+
+NN_REPLAYER = ("replay_nn", "NNReplayer")
